@@ -70,6 +70,37 @@ theorem roundtrip_fragmented (items : List Item) (hok : ∀ i ∈ items, i.ok) (
     readAll true ((encodeItems items).length + 1) ⟨encodeItems items, sc⟩ = (dataOf items, .eof) := by
   rw [fragmentation_independent _ _ _ (Nat.lt_succ_self _), roundtrip items hok]
 
+/-- **No two chunk sequences share an encoding.**  If two item sequences (data chunks and paddings, in any
+mixture) produce the same bytes, they carry the same data chunks in the same order: a receiver can never be
+made to read different packets from the bytes the sender meant (corollary of `roundtrip`). -/
+theorem encoding_unambiguous (a b : List Item) (ha : ∀ i ∈ a, i.ok) (hb : ∀ i ∈ b, i.ok)
+    (h : encodeItems a = encodeItems b) : dataOf a = dataOf b := by
+  have h1 := roundtrip a ha
+  have h2 := roundtrip b hb
+  rw [h, h2] at h1
+  exact (Prod.mk.inj h1).1.symm
+
+theorem dataOf_append (a b : List Item) : dataOf (a ++ b) = dataOf a ++ dataOf b := by
+  induction a with
+  | nil => rfl
+  | cons x xs ih => cases x <;> simp [dataOf, ih]
+
+/-- **Streams concatenate.**  Writing one item sequence after another on the same stream (two writers taking
+turns, or one writer over time) is the encoding of the concatenated sequence, and it decodes to the first
+sequence's chunks followed by the second's: framing carries no state from one chunk to the next. -/
+theorem streams_concatenate (a b : List Item) (ha : ∀ i ∈ a, i.ok) (hb : ∀ i ∈ b, i.ok) :
+    encodeItems (a ++ b) = encodeItems a ++ encodeItems b ∧
+    decodeAll (encodeItems a ++ encodeItems b) = (dataOf a ++ dataOf b, .eof) := by
+  have e : encodeItems (a ++ b) = encodeItems a ++ encodeItems b := by
+    simp [encodeItems]
+  refine ⟨e, ?_⟩
+  rw [← e, roundtrip (a ++ b) (by intro i hi; rcases List.mem_append.mp hi with h | h; exact ha i h; exact hb i h),
+    dataOf_append]
+
+/-- Non-vacuity of `encoding_unambiguous`: two different item sequences with the same data really can differ
+(padding placement), and the theorem's conclusion is about their data only. -/
+example : dataOf [Item.pad 3, .data [1], .pad 0] = dataOf [Item.data [1], .pad 5] := by decide
+
 /-- **Padding is exact and invisible**: `WritePadding n` occupies exactly `n` bytes and decodes
 to no data. -/
 theorem padding_exact (n : Nat) :
